@@ -38,7 +38,7 @@ func newManager(n *Node, sg any, seq any) (*block.Manager, error) {
 			block.NopMetrics(),
 			1.0,
 			1.0,
-			block.DefaultManagerOptions(),
+			n.P.managerOptions(),
 		)
 	})
 	if !completed {
